@@ -106,6 +106,10 @@ func unpackStreamReader[T any](isr streamReader) (*schema.StreamReader[T], bool)
 	typ := generic.TypeOf[T]()
 	if typ.Kind() == reflect.Interface {
 		return schema.StreamReaderWithConvert(isr.toAnyStreamReader(), func(t any) (T, error) {
+			if t == nil { // a nil chunk is the nil value of the interface type T
+				var zero T
+				return zero, nil
+			}
 			return t.(T), nil
 		}), true
 	}
